@@ -213,6 +213,17 @@ func shrinkPlan(p *Plan, clause string) *Plan {
 			}
 		}
 	}
+	// a minimised plan can sit on an edge (a dump a few bytes above a buffer
+	// size: the bytes of a dump vary a little from process to process with the
+	// pointer values in it). It is kept only if it fails twice more; otherwise
+	// the plan as generated is reported.
+	if len(cur.Steps) < len(p.Steps) {
+		for k := 0; k < 2; k++ {
+			if o, err := execPlan(cur); err != nil || !hasClause(o.Findings, clause) {
+				return &Plan{Seed: p.Seed, Run: p.Run, BurnIDs: p.BurnIDs, Traceback: p.Traceback, Steps: append([]Step(nil), p.Steps...)}
+			}
+		}
+	}
 	return cur
 }
 
@@ -357,14 +368,22 @@ func orchestrate() int {
 	rc := 0
 	nviol := 0
 	os.MkdirAll(filepath.Join(dir, "replays"), 0o755)
+	type freeRun struct{ bin, procs string }
+	var freeRuns []freeRun
 	for _, bin := range filepath.SplitList(os.Getenv("LIVESIM_RACE_BINS")) {
+		// many processors, and two (requests then share a P: per-P caches such as
+		// sync.Pool hand the same object to consecutive requests)
+		freeRuns = append(freeRuns, freeRun{bin, "16"}, freeRun{bin, "2"})
+	}
+	for _, fr := range freeRuns {
+		bin := fr.bin
 		rounds := 3
 		if tier == "thorough" {
 			rounds = 60
 		}
 		t1 := time.Now()
 		cmd := exec.Command(bin, "-test.run=^TestFreeRunning$", "-test.timeout=2h")
-		cmd.Env = append(os.Environ(), "LIVESIM_MODE=race", fmt.Sprintf("LIVESIM_SEED=%d", seed), fmt.Sprintf("LIVESIM_ROUNDS=%d", rounds), "GORACE=halt_on_error=1 exitcode=66", "GOMAXPROCS=16")
+		cmd.Env = append(os.Environ(), "LIVESIM_MODE=race", fmt.Sprintf("LIVESIM_SEED=%d", seed), fmt.Sprintf("LIVESIM_ROUNDS=%d", rounds), "GORACE=halt_on_error=1 exitcode=66", "GOMAXPROCS="+fr.procs)
 		var obuf bytes.Buffer
 		cmd.Stdout, cmd.Stderr = &obuf, &obuf
 		err := cmd.Start()
@@ -385,7 +404,7 @@ func orchestrate() int {
 			}
 		}
 		ob := obuf.Bytes()
-		name := filepath.Base(bin)
+		name := filepath.Base(bin) + "@GOMAXPROCS=" + fr.procs
 		free[name] = map[string]any{"rounds": rounds, "wall_s": time.Since(t1).Seconds(), "ok": err == nil}
 		if err != nil {
 			nviol++
